@@ -41,7 +41,7 @@ func init() {
 			"a claim starts at the offset manager's NextOffset (or the initial position) and falls back to the initial position only on ErrOffsetOutOfRange, reporting the offset actually used (C07.start-offset); join/sync/heartbeat/leave/commit requests carry the member id and generation the coordinator issued (C07.identity); both coordinator switches treat the same codes alike, a fenced member resets its id before rejoining and budgeted retries test the budget (C07.fenced); member state is accessed under the group lock, which Consume holds for the whole session (C07.lock). " +
 			"Shared with C06 for the clause 'a final commit of the marked offsets': an acknowledgement clears the dirty flag only if the position still equals the committed one, and the final flush is retried up to Offsets.Retry.Max (C06.keep-dirty, C06.close). " +
 			"NOT covered: coverage of the log across sessions, commit-before-return under coordinator faults, the coordinator's own behaviour.",
-		Rules: []func(*Ctx){c07Order, c07ClaimWG, c07StartOffset, c07Identity, c07Fenced, c07Lock, c07Dying, c06KeepDirty, c06Commit, c06Close, c06Remaining, c07ErrLost, c06Recover, c12RetryObservesClose, c07FreshRequests, c06ScanBeforeNil, c06FinalFlushIgnoresClosing, c06LoopGoneBeforeFlush, c06RefreshReregisters, c12ClosedTestApartFromSend, c07GatedIdentity, c06EveryFlushAttempts, c06CloseOnCommitError, c07ManagersBeforeSetup, c06FinalFlushExits, c07InitialOffsetFromCoordinator, c06SessionForwards, c07ShutdownArmLeaves, c18Consumer, c06DeferUnlockInLoop},
+		Rules: []func(*Ctx){c07Order, c07ClaimWG, c07StartOffset, c07Identity, c07Fenced, c07Lock, c07Dying, c06KeepDirty, c06Commit, c06Close, c06Remaining, c07ErrLost, c06Recover, c12RetryObservesClose, c07FreshRequests, c06ScanBeforeNil, c06FinalFlushIgnoresClosing, c06LoopGoneBeforeFlush, c06RefreshReregisters, c12ClosedTestApartFromSend, c07GatedIdentity, c06EveryFlushAttempts, c06CloseOnCommitError, c07ManagersBeforeSetup, c06FinalFlushExits, c07InitialOffsetFromCoordinator, c06SessionForwards, c07ShutdownArmLeaves, c18Consumer, c06DeferUnlockInLoop, c06RecursiveLock},
 	})
 }
 
